@@ -653,6 +653,9 @@ func ruleR184(c *Ctx) {
 						isErr = true
 						if ok {
 							for _, gd := range g.Guards(r) {
+								if gd.Synth {
+									continue // "err != nil" was false for an earlier value of err
+								}
 								if be, ok := ast.Unparen(gd.Cond).(*ast.BinaryExpr); ok && be.Op == token.EQL && gd.Val {
 									if eid, ok := ast.Unparen(be.X).(*ast.Ident); ok && eid.Name == id.Name {
 										isErr = false
